@@ -64,11 +64,43 @@ def shard_fn(shard, nshards, seed, tier, exe, npairs):
         text, _v = g.document()
         if len(text) < 3000:
             add(D, text, rng.choice([0, 0, 0, 1, 7]), "generated")
+    # several documents through ONE tokener (reset after every document, or only after errors as the API requires): every outcome must be the one a
+    # fresh tokener with the same limit gives; and json_tokener_parse_verbose against a default tokener on the same text (bracket-heavy, truncated)
+    seqmeta = {}
+    for i in range(npairs // nshards // 25):
+        D = rng.choice([1, 2, 5, 31, 32, 33, 34, 40, 64, 100, 200])
+        docs = []
+        for _ in range(rng.choice([2, 3, 4])):
+            m = max(0, rng.choice([D - 1, D, D, D + 1, D + 1, D + 5, 2 * D, 1, 33, 40]))
+            t = nest(rng, m, rng.choice("aoxr"), rng.choice(["0", "[]", "{}", "null"]), rng.choice(["only", "first", "middle", "last"]))
+            k = rng.random()
+            if k < 0.15:
+                t = t[:rng.randrange(1, len(t) + 1)]           # truncated: ends in "continue", the next document must not be affected after a reset
+            elif k < 0.25:
+                t = t[:len(t) // 2] + b"x" + t[len(t) // 2:]   # syntax error in the middle
+            docs.append(t)
+        flags = rng.choice([0, 0, 1])
+        rm = rng.choice([0, 1, 1])
+        cid = "%d.seq%d" % (shard, i)
+        cases.append((cid, ["PM %d %d %d %s" % (flags, D, rm, " ".join("x" + d.hex() for d in docs))] + ["P %d %d 1 x%s" % (flags, D, d.hex()) for d in docs]))
+        seqmeta[cid] = (D, docs, rm)
+    for i in range(npairs // nshards // 10):
+        k = rng.random()
+        if k < 0.6:
+            t = bytes(rng.choice(b'[[[{{]}1,:"a ') for _ in range(rng.randrange(1, 14)))
+        else:
+            full = nest(rng, rng.choice([1, 2, 5, 16, 31, 32, 33, 40]), rng.choice("aoxr"), rng.choice(["0", "[]", "{}", '"s"']), rng.choice(["only", "first", "last"]))
+            t = full[:rng.randrange(1, len(full) + 1)] if rng.random() < 0.7 else full
+        if b"\0" in t:
+            continue
+        cid = "%d.pv%d" % (shard, i)
+        cases.append((cid, ["PV x" + t.hex(), "P 0 0 2 x" + t.hex()]))
+        seqmeta[cid] = (None, [t], None)
     results, crashes = core.run_script(exe, cases, tag="c15", timeout=1800, env=core.ambient_env(sh, shard))
     cmdmap = dict(cases)
     for cr in crashes:
         kind, frame = cr.summary()
-        D, text, chunk, k, g = meta.get(cr.cid, (0, b"", 0, "?", None))
+        D, text, chunk, k, g = meta.get(cr.cid, (seqmeta.get(cr.cid, (0,))[0] or 0, b" ".join(seqmeta.get(cr.cid, (0, [b""]))[1]), 0, "sequence", None))
         sh.violation("C15/crash/%s/%s" % (kind, frame), "crash/hang parsing %d bytes with depth limit %d (%s)" % (len(text), D, kind),
                      {"driver": "jcdrv", "variant": "asan", "script": [c[:200000] for c in cmdmap[cr.cid]], "stderr": cr.stderr[-3000:]})
     peaks = {}
@@ -78,6 +110,40 @@ def shard_fn(shard, nshards, seed, tier, exe, npairs):
             sh.evaluations += 4
             if got != ["null", "null", "null", "ok"]:
                 sh.violation("C15/new_ex-accepts-depth<1", "json_tokener_new_ex(0,-1,INT_MIN,1) returned %s" % got, {"driver": "jcdrv", "script": cmdmap[cid]})
+            continue
+        if cid in seqmeta:
+            D, docs, rm = seqmeta[cid]
+            rep = {"driver": "jcdrv", "variant": "asan", "script": cmdmap[cid], "depth_limit": D, "texts": [d[:200].decode("latin1") for d in docs]}
+            if D is None:
+                pv, pp = lines[0].split(" ", 3), lines[1].split(" ", 4)
+                sh.evaluations += 1
+                sh.count("parse_verbose_vs_default_tokener")
+                if (pv[1], pv[2], pv[3]) != (pp[1], pp[3], pp[4]):
+                    sh.violation("C15/parse_verbose-differs-from-default-tokener", "json_tokener_parse_verbose(%r): error %s, default tokener: error %s" % (docs[0][:60], pv[1], pp[1]), rep)
+                sh.nontrivial(b"pv/" + docs[0])
+                continue
+            parts = lines[0][2:].split(" || ")
+            for j, d in enumerate(docs):
+                sh.evaluations += 1
+                fresh = lines[1 + j][2:]
+                if j >= len(parts) or parts[j] != fresh:
+                    sh.violation("C15/reused-tokener-differs-from-fresh/doc%d" % min(j, 3), "document #%d through a reused tokener (limit %d, reset %s): %s ; fresh tokener: %s" % (
+                        j, D, "always" if rm else "after errors", (parts[j] if j < len(parts) else "-")[:80], fresh[:80]), rep)
+                    break
+                exp = None
+                try:
+                    refjson.parse(d)
+                    valid = True
+                except refjson.JSONError:
+                    valid = False
+                if valid:
+                    exp = first_too_deep(d, D)
+                    err = int(fresh.split()[0])
+                    if (exp is None) != (err == 0) or (exp is not None and (err != E_DEPTH or int(fresh.split()[1]) != exp)):
+                        sh.violation("C15/sequence/wrong-outcome", "limit %d: document %r gave %s, expected %s" % (D, d[:60], fresh[:40], "accept" if exp is None else "error_depth at %d" % exp), rep)
+                        break
+            sh.count("documents_through_reused_tokeners", len(docs))
+            sh.nontrivial(b"seq/%d/" % D + b" ".join(docs))
             continue
         D, text, chunk, kind, group = meta[cid]
         ln = lines[0]
